@@ -1,5 +1,12 @@
-(* MsgPackRT.v — MessagePack serializer/deserializer model: big-endian helpers, integer and string
-   round trips with the narrowest header, whole-document round trip. *)
+(* MsgPackRT.v — MessagePack serializer/deserializer model (Model/MsgPack.v).
+   Part 1  big-endian helpers (be_bytes / be_value / signed_of)
+   Part 2  integers: mp_int_roundtrip, mp_int_minimal
+   Part 3  strings and headers: mp_str_roundtrip, header widths and first bytes
+   floats  valid_binary -> the interchange encoding decodes back (valid_repr_ok); binary_normalize
+           always yields a valid float (binary_normalize_valid; SpecFloat ships definitions only)
+   Part 4  whole documents: mp_norm, mp_ok, mp_roundtrip, mp_run_roundtrip, mp_fixpoint
+   Part 5  strict prefixes: mp_prefix_incomplete
+   [rd_at l n] is the reader with [l] unread and [n] bytes consumed so far. *)
 From Coq Require Import ZArith NArith List Bool Lia.
 From Coq Require Import Floats.SpecFloat.
 From AJ Require Import Model.Base Model.FloatModel Model.Value Model.JsonParse Model.MsgPack.
@@ -38,11 +45,14 @@ Proof. intros. rewrite be_value_be_bytes_gen. lia. Qed.
 Lemma be_value_be_bytes : forall w z, 0 <= z < 2 ^ (8 * Z.of_nat w) -> be_value (be_bytes w z) 0 = z.
 Proof. intros w z H. rewrite be_value_be_bytes_mod. apply Z.mod_small. exact H. Qed.
 
-Lemma signed_of_be_bytes : forall w z, (1 <= w)%nat ->
+Lemma signed_of_be_bytes : forall w z,
   - 2 ^ (8 * Z.of_nat w - 1) <= z < 2 ^ (8 * Z.of_nat w - 1) ->
   signed_of w (be_value (be_bytes w z) 0) = z.
 Proof.
-  intros w z Hw H. rewrite be_value_be_bytes_mod. unfold signed_of.
+  intros w z H.
+  assert (Hw : (1 <= w)%nat).
+  { destruct w as [|w]; [|lia]. change (2 ^ (8 * Z.of_nat 0 - 1)) with 0 in H. lia. }
+  rewrite be_value_be_bytes_mod. unfold signed_of.
   set (k := 8 * Z.of_nat w) in *.
   assert (Hk : 2 ^ k = 2 * 2 ^ (k - 1)).
   { replace k with (k - 1 + 1) at 1 by lia. rewrite Z.pow_add_r by lia. lia. }
@@ -57,7 +67,7 @@ Qed.
 (* ------------------------------------------------------------------------------------- *)
 (* reader steps *)
 
-Definition mk (l : bytes) (n : N) : mrd := {| m_rest := l; m_reads := n |}.
+Definition rd_at (l : bytes) (n : N) : mrd := {| m_rest := l; m_reads := n |}.
 
 Lemma firstn_length_app : forall (A : Type) (l r : list A), firstn (length l) (l ++ r) = l.
 Proof. induction l as [|x l IH]; intros r; cbn [length firstn app]; [reflexivity|]. rewrite IH. reflexivity. Qed.
@@ -66,26 +76,26 @@ Lemma skipn_length_app : forall (A : Type) (l r : list A), skipn (length l) (l +
 Proof. induction l as [|x l IH]; intros r; cbn [length skipn app]; auto. Qed.
 
 Lemma read_n_app : forall l rest n,
-  read_n (length l) (mk (l ++ rest) n) = (Some l, mk rest (n + N.of_nat (length l))).
+  read_n (length l) (rd_at (l ++ rest) n) = (Some l, rd_at rest (n + N.of_nat (length l))).
 Proof.
-  intros l rest n. unfold read_n, mk. cbn [m_rest m_reads].
+  intros l rest n. unfold read_n, rd_at. cbn [m_rest m_reads].
   rewrite firstn_length_app, skipn_length_app, Nat.eqb_refl. reflexivity.
 Qed.
 
 Lemma read_n_app' : forall w l rest n, length l = w ->
-  read_n w (mk (l ++ rest) n) = (Some l, mk rest (n + N.of_nat w)).
+  read_n w (rd_at (l ++ rest) n) = (Some l, rd_at rest (n + N.of_nat w)).
 Proof. intros w l rest n <-. apply read_n_app. Qed.
 
 Lemma read_z_app : forall z l rest n, Z.of_nat (length l) = z ->
-  read_z z (mk (l ++ rest) n) = (Some l, mk rest (n + N.of_nat (length l))).
+  read_z z (rd_at (l ++ rest) n) = (Some l, rd_at rest (n + N.of_nat (length l))).
 Proof.
-  intros z l rest n <-. unfold read_z. cbn [mk m_rest].
+  intros z l rest n <-. unfold read_z. cbn [rd_at m_rest].
   rewrite app_length.
   destruct (Z.leb_spec (Z.of_nat (length l)) (Z.of_nat (length l + length rest))) as [_|H]; [|lia].
   rewrite Nat2Z.id. apply read_n_app.
 Qed.
 
-Lemma read_1_cons : forall c rest n, read_n 1 (mk (c :: rest) n) = (Some [c], mk rest (n + 1)).
+Lemma read_1_cons : forall c rest n, read_n 1 (rd_at (c :: rest) n) = (Some [c], rd_at rest (n + 1)).
 Proof. intros. reflexivity. Qed.
 
 (* ------------------------------------------------------------------------------------- *)
@@ -223,9 +233,9 @@ Proof. intros z. cbn [be_bytes]. change (2 ^ (8 * Z.of_nat 0)) with 1. rewrite Z
 (* Part 2 — integers *)
 
 Lemma body_intcode : forall cf pv' Lz cb rest k, 0xCC <= Z.of_N cb <= 0xD3 ->
-  mp_body cf pv' Lz None (mk (cb :: rest) k) =
+  mp_body cf pv' Lz None (rd_at (cb :: rest) k) =
     let width := Z.to_nat (2 ^ ((Z.of_N cb - 0xCC) mod 4)) in
-    match read_n width (mk rest (k + 1)) with
+    match read_n width (rd_at rest (k + 1)) with
     | (Some l, r) =>
         (Ok, JInt (if 0xD0 <=? Z.of_N cb then signed_of width (be_value l 0) else be_value l 0), r)
     | (None, r) => (IncompleteInput, JNull, r)
@@ -238,7 +248,7 @@ Proof.
 Qed.
 
 Lemma body_fixint : forall cf pv' Lz cb rest k, Z.of_N cb <= 0x7F \/ 0xE0 <= Z.of_N cb ->
-  mp_body cf pv' Lz None (mk (cb :: rest) k) = (Ok, JInt (signed_of 1 (Z.of_N cb)), mk rest (k + 1)).
+  mp_body cf pv' Lz None (rd_at (cb :: rest) k) = (Ok, JInt (signed_of 1 (Z.of_N cb)), rd_at rest (k + 1)).
 Proof.
   intros cf pv' Lz cb rest k H. unfold mp_body. rewrite read_1_cons. cbv beta iota zeta.
   assert (E1 : (0xCC <=? Z.of_N cb) && (Z.of_N cb <=? 0xD3) = false).
@@ -260,8 +270,8 @@ Proof. intros. lia. Qed.
 Lemma body_uint_rt : forall cf pv' Lz cb w z rest k,
   0xCC <= Z.of_N cb <= 0xCF -> Z.to_nat (2 ^ ((Z.of_N cb - 0xCC) mod 4)) = w ->
   0 <= z < 2 ^ (8 * Z.of_nat w) ->
-  mp_body cf pv' Lz None (mk ((cb :: be_bytes w z) ++ rest) k) =
-    (Ok, JInt z, mk rest (k + N.of_nat (length (cb :: be_bytes w z)))).
+  mp_body cf pv' Lz None (rd_at ((cb :: be_bytes w z) ++ rest) k) =
+    (Ok, JInt z, rd_at rest (k + N.of_nat (length (cb :: be_bytes w z)))).
 Proof.
   intros cf pv' Lz cb w z rest k Hc Hw Hz. cbn [app length]. rewrite body_intcode by lia.
   cbv zeta. rewrite Hw. rewrite (read_n_app' w) by apply be_bytes_length.
@@ -270,20 +280,20 @@ Proof.
 Qed.
 
 Lemma body_sint_rt : forall cf pv' Lz cb w z rest k,
-  0xD0 <= Z.of_N cb <= 0xD3 -> Z.to_nat (2 ^ ((Z.of_N cb - 0xCC) mod 4)) = w -> (1 <= w)%nat ->
+  0xD0 <= Z.of_N cb <= 0xD3 -> Z.to_nat (2 ^ ((Z.of_N cb - 0xCC) mod 4)) = w ->
   - 2 ^ (8 * Z.of_nat w - 1) <= z < 2 ^ (8 * Z.of_nat w - 1) ->
-  mp_body cf pv' Lz None (mk ((cb :: be_bytes w z) ++ rest) k) =
-    (Ok, JInt z, mk rest (k + N.of_nat (length (cb :: be_bytes w z)))).
+  mp_body cf pv' Lz None (rd_at ((cb :: be_bytes w z) ++ rest) k) =
+    (Ok, JInt z, rd_at rest (k + N.of_nat (length (cb :: be_bytes w z)))).
 Proof.
-  intros cf pv' Lz cb w z rest k Hc Hw Hw1 Hz. cbn [app length]. rewrite body_intcode by lia.
+  intros cf pv' Lz cb w z rest k Hc Hw Hz. cbn [app length]. rewrite body_intcode by lia.
   cbv zeta. rewrite Hw. rewrite (read_n_app' w) by apply be_bytes_length.
   destruct (Z.leb_spec 0xD0 (Z.of_N cb)) as [_|H]; [|lia].
   rewrite signed_of_be_bytes by assumption. rewrite be_bytes_length, reads_assoc. reflexivity.
 Qed.
 
 Lemma body_fixint_rt : forall cf pv' Lz z rest k, -32 <= z <= 127 ->
-  mp_body cf pv' Lz None (mk (be_bytes 1 z ++ rest) k) =
-    (Ok, JInt z, mk rest (k + N.of_nat (length (be_bytes 1 z)))).
+  mp_body cf pv' Lz None (rd_at (be_bytes 1 z ++ rest) k) =
+    (Ok, JInt z, rd_at rest (k + N.of_nat (length (be_bytes 1 z)))).
 Proof.
   intros cf pv' Lz z rest k Hz. rewrite be_bytes_1. cbn [app length].
   assert (Hb : Z.of_N (bz z) = z mod 256) by apply bz_mod.
@@ -299,8 +309,8 @@ Proof.
 Qed.
 
 Lemma mp_int_body : forall cf pv' Lz z rest k, - 2 ^ 63 <= z < 2 ^ 64 ->
-  mp_body cf pv' Lz None (mk (mp_int z ++ rest) k) =
-    (Ok, JInt z, mk rest (k + N.of_nat (length (mp_int z)))).
+  mp_body cf pv' Lz None (rd_at (mp_int z ++ rest) k) =
+    (Ok, JInt z, rd_at rest (k + N.of_nat (length (mp_int z)))).
 Proof.
   intros cf pv' Lz z rest k Hz. unfold mp_int, mp_uint.
   destruct (Z.ltb_spec 0 z) as [Hp|Hp].
@@ -318,15 +328,15 @@ Proof.
     change (2 ^ (8 * Z.of_nat 8)) with (2 ^ 64). lia.
   - destruct (Z.leb_spec (-0x20) z) as [H1|H1]; [apply body_fixint_rt; lia|].
     destruct (Z.leb_spec (-0x80) z) as [H2|H2].
-    { apply body_sint_rt; [vm_compute; split; discriminate|reflexivity|lia|].
+    { apply body_sint_rt; [vm_compute; split; discriminate|reflexivity|].
       change (2 ^ (8 * Z.of_nat 1 - 1)) with 128. lia. }
     destruct (Z.leb_spec (-0x8000) z) as [H3|H3].
-    { apply body_sint_rt; [vm_compute; split; discriminate|reflexivity|lia|].
+    { apply body_sint_rt; [vm_compute; split; discriminate|reflexivity|].
       change (2 ^ (8 * Z.of_nat 2 - 1)) with 32768. lia. }
     destruct (Z.leb_spec (-0x80000000) z) as [H4|H4].
-    { apply body_sint_rt; [vm_compute; split; discriminate|reflexivity|lia|].
+    { apply body_sint_rt; [vm_compute; split; discriminate|reflexivity|].
       change (2 ^ (8 * Z.of_nat 4 - 1)) with 2147483648. lia. }
-    apply body_sint_rt; [vm_compute; split; discriminate|reflexivity|lia|].
+    apply body_sint_rt; [vm_compute; split; discriminate|reflexivity|].
     change (2 ^ (8 * Z.of_nat 8 - 1)) with (2 ^ 63). lia.
 Qed.
 
@@ -385,7 +395,7 @@ Definition early (c : Z) : bool :=
   || (c =? 0xCA) || (c =? 0xCB) || ((c <=? 0x7F) || (0xE0 <=? c)).
 
 Lemma body_tail : forall cf pv' Lz f cb rest k, early (Z.of_N cb) = false ->
-  mp_body cf pv' Lz f (mk (cb :: rest) k) = mp_tail pv' Lz f cb (mk rest (k + 1)).
+  mp_body cf pv' Lz f (rd_at (cb :: rest) k) = mp_tail pv' Lz f cb (rd_at rest (k + 1)).
 Proof.
   intros cf pv' Lz f cb rest k H. unfold early in H.
   apply orb_false_elim in H as [H H7]. apply orb_false_elim in H as [H H6].
@@ -459,7 +469,7 @@ Proof.
 Qed.
 
 Lemma body_fixstr : forall cf pv' Lz n rest k, 0 <= n < 32 ->
-  mp_body cf pv' Lz None (mk (bz (0xA0 + n) :: rest) k) = str_payload n (mk rest (k + 1)).
+  mp_body cf pv' Lz None (rd_at (bz (0xA0 + n) :: rest) k) = str_payload n (rd_at rest (k + 1)).
 Proof.
   intros cf pv' Lz n rest k H.
   destruct (fix_facts_elim _ _ _ _ _ (fixstr_facts n H)) as (F1 & F2 & F3 & F4 & F5 & F6).
@@ -471,7 +481,7 @@ Proof.
 Qed.
 
 Lemma body_fixarr : forall cf pv' Lz n rest k, 0 <= n < 16 ->
-  mp_body cf pv' Lz None (mk (bz (0x90 + n) :: rest) k) = arr_payload pv' Lz n (mk rest (k + 1)).
+  mp_body cf pv' Lz None (rd_at (bz (0x90 + n) :: rest) k) = arr_payload pv' Lz n (rd_at rest (k + 1)).
 Proof.
   intros cf pv' Lz n rest k H.
   destruct (fix_facts_elim _ _ _ _ _ (fixarr_facts n H)) as (F1 & F2 & F3 & F4 & F5 & F6).
@@ -483,7 +493,7 @@ Proof.
 Qed.
 
 Lemma body_fixmap : forall cf pv' Lz n rest k, 0 <= n < 16 ->
-  mp_body cf pv' Lz None (mk (bz (0x80 + n) :: rest) k) = map_payload pv' Lz n (mk rest (k + 1)).
+  mp_body cf pv' Lz None (rd_at (bz (0x80 + n) :: rest) k) = map_payload pv' Lz n (rd_at rest (k + 1)).
 Proof.
   intros cf pv' Lz n rest k H.
   destruct (fix_facts_elim _ _ _ _ _ (fixmap_facts n H)) as (F1 & F2 & F3 & F4 & F5 & F6).
@@ -496,29 +506,29 @@ Qed.
 
 (* str 8/16/32, array 16/32, map 16/32: the size follows the code byte *)
 Lemma body_str8 : forall cf pv' Lz rest k,
-  mp_body cf pv' Lz None (mk (bz 0xD9 :: rest) k) = hdr_then 1 (mk rest (k + 1)) str_payload.
+  mp_body cf pv' Lz None (rd_at (bz 0xD9 :: rest) k) = hdr_then 1 (rd_at rest (k + 1)) str_payload.
 Proof. reflexivity. Qed.
 Lemma body_str16 : forall cf pv' Lz rest k,
-  mp_body cf pv' Lz None (mk (bz 0xDA :: rest) k) = hdr_then 2 (mk rest (k + 1)) str_payload.
+  mp_body cf pv' Lz None (rd_at (bz 0xDA :: rest) k) = hdr_then 2 (rd_at rest (k + 1)) str_payload.
 Proof. reflexivity. Qed.
 Lemma body_str32 : forall cf pv' Lz rest k,
-  mp_body cf pv' Lz None (mk (bz 0xDB :: rest) k) = hdr_then 4 (mk rest (k + 1)) str_payload.
+  mp_body cf pv' Lz None (rd_at (bz 0xDB :: rest) k) = hdr_then 4 (rd_at rest (k + 1)) str_payload.
 Proof. reflexivity. Qed.
 Lemma body_arr16 : forall cf pv' Lz rest k,
-  mp_body cf pv' Lz None (mk (bz 0xDC :: rest) k) = hdr_then 2 (mk rest (k + 1)) (arr_payload pv' Lz).
+  mp_body cf pv' Lz None (rd_at (bz 0xDC :: rest) k) = hdr_then 2 (rd_at rest (k + 1)) (arr_payload pv' Lz).
 Proof. reflexivity. Qed.
 Lemma body_arr32 : forall cf pv' Lz rest k,
-  mp_body cf pv' Lz None (mk (bz 0xDD :: rest) k) = hdr_then 4 (mk rest (k + 1)) (arr_payload pv' Lz).
+  mp_body cf pv' Lz None (rd_at (bz 0xDD :: rest) k) = hdr_then 4 (rd_at rest (k + 1)) (arr_payload pv' Lz).
 Proof. reflexivity. Qed.
 Lemma body_map16 : forall cf pv' Lz rest k,
-  mp_body cf pv' Lz None (mk (bz 0xDE :: rest) k) = hdr_then 2 (mk rest (k + 1)) (map_payload pv' Lz).
+  mp_body cf pv' Lz None (rd_at (bz 0xDE :: rest) k) = hdr_then 2 (rd_at rest (k + 1)) (map_payload pv' Lz).
 Proof. reflexivity. Qed.
 Lemma body_map32 : forall cf pv' Lz rest k,
-  mp_body cf pv' Lz None (mk (bz 0xDF :: rest) k) = hdr_then 4 (mk rest (k + 1)) (map_payload pv' Lz).
+  mp_body cf pv' Lz None (rd_at (bz 0xDF :: rest) k) = hdr_then 4 (rd_at rest (k + 1)) (map_payload pv' Lz).
 Proof. reflexivity. Qed.
 
 Lemma hdr_then_be : forall w n rest k K, 0 <= n < 2 ^ (8 * Z.of_nat w) ->
-  hdr_then w (mk (be_bytes w n ++ rest) k) K = K n (mk rest (k + N.of_nat w)).
+  hdr_then w (rd_at (be_bytes w n ++ rest) k) K = K n (rd_at rest (k + N.of_nat w)).
 Proof.
   intros w n rest k K H. unfold hdr_then.
   rewrite (read_n_app' w) by apply be_bytes_length.
@@ -529,8 +539,8 @@ Qed.
 (* Part 3 — strings and headers *)
 
 Lemma str_header_body : forall cf pv' Lz n rest k, 0 <= n < 2 ^ 32 ->
-  mp_body cf pv' Lz None (mk (mp_str_header n ++ rest) k) =
-    str_payload n (mk rest (k + N.of_nat (length (mp_str_header n)))).
+  mp_body cf pv' Lz None (rd_at (mp_str_header n ++ rest) k) =
+    str_payload n (rd_at rest (k + N.of_nat (length (mp_str_header n)))).
 Proof.
   intros cf pv' Lz n rest k H. unfold mp_str_header.
   destruct (Z.ltb_spec n 0x20) as [H1|H1].
@@ -546,8 +556,8 @@ Proof.
 Qed.
 
 Lemma arr_header_body : forall cf pv' Lz n rest k, 0 <= n < 2 ^ 32 ->
-  mp_body cf pv' Lz None (mk (mp_arr_header n ++ rest) k) =
-    arr_payload pv' Lz n (mk rest (k + N.of_nat (length (mp_arr_header n)))).
+  mp_body cf pv' Lz None (rd_at (mp_arr_header n ++ rest) k) =
+    arr_payload pv' Lz n (rd_at rest (k + N.of_nat (length (mp_arr_header n)))).
 Proof.
   intros cf pv' Lz n rest k H. unfold mp_arr_header.
   destruct (Z.ltb_spec n 0x10) as [H1|H1].
@@ -560,8 +570,8 @@ Proof.
 Qed.
 
 Lemma map_header_body : forall cf pv' Lz n rest k, 0 <= n < 2 ^ 32 ->
-  mp_body cf pv' Lz None (mk (mp_map_header n ++ rest) k) =
-    map_payload pv' Lz n (mk rest (k + N.of_nat (length (mp_map_header n)))).
+  mp_body cf pv' Lz None (rd_at (mp_map_header n ++ rest) k) =
+    map_payload pv' Lz n (rd_at rest (k + N.of_nat (length (mp_map_header n)))).
 Proof.
   intros cf pv' Lz n rest k H. unfold mp_map_header.
   destruct (Z.ltb_spec n 0x10) as [H1|H1].
@@ -574,8 +584,8 @@ Proof.
 Qed.
 
 Lemma str_payload_rt : forall s rest k, Z.of_nat (length s) <= max_string_length ->
-  str_payload (Z.of_nat (length s)) (mk (s ++ rest) k) =
-    (Ok, JStr s, mk rest (k + N.of_nat (length s))).
+  str_payload (Z.of_nat (length s)) (rd_at (s ++ rest) k) =
+    (Ok, JStr s, rd_at rest (k + N.of_nat (length s))).
 Proof.
   intros s rest k H. unfold str_payload.
   destruct (Z.ltb_spec max_string_length (Z.of_nat (length s))) as [H1|_]; [lia|].
@@ -586,8 +596,8 @@ Lemma reads_app : forall k a b, (k + N.of_nat a + N.of_nat b = k + N.of_nat (a +
 Proof. intros. lia. Qed.
 
 Lemma mp_str_body : forall cf pv' Lz s rest k, Z.of_nat (length s) <= max_string_length ->
-  mp_body cf pv' Lz None (mk (mp_str s ++ rest) k) =
-    (Ok, JStr s, mk rest (k + N.of_nat (length (mp_str s)))).
+  mp_body cf pv' Lz None (rd_at (mp_str s ++ rest) k) =
+    (Ok, JStr s, rd_at rest (k + N.of_nat (length (mp_str s)))).
 Proof.
   intros cf pv' Lz s rest k H. unfold mp_str. rewrite <- app_assoc.
   rewrite str_header_body by (unfold max_string_length in H; lia).
@@ -701,7 +711,7 @@ Definition key_facts (n : Z) : bool :=
   (Z.land (0xA0 + n) 0xE0 =? 0xA0) && (Z.land (0xA0 + n) 0x1F =? n).
 
 Lemma key_fixstr : forall n rest k, 0 <= n < 32 ->
-  mp_read_key (mk (bz (0xA0 + n) :: rest) k) = key_payload n (mk rest (k + 1)).
+  mp_read_key (rd_at (bz (0xA0 + n) :: rest) k) = key_payload n (rd_at rest (k + 1)).
 Proof.
   intros n rest k H.
   assert (F : key_facts n = true).
@@ -711,15 +721,15 @@ Proof.
   rewrite bz_id by lia. rewrite F1, F2. reflexivity.
 Qed.
 
-Lemma key_str8 : forall rest k, mp_read_key (mk (bz 0xD9 :: rest) k) = key_hdr_then 1 (mk rest (k + 1)).
+Lemma key_str8 : forall rest k, mp_read_key (rd_at (bz 0xD9 :: rest) k) = key_hdr_then 1 (rd_at rest (k + 1)).
 Proof. reflexivity. Qed.
-Lemma key_str16 : forall rest k, mp_read_key (mk (bz 0xDA :: rest) k) = key_hdr_then 2 (mk rest (k + 1)).
+Lemma key_str16 : forall rest k, mp_read_key (rd_at (bz 0xDA :: rest) k) = key_hdr_then 2 (rd_at rest (k + 1)).
 Proof. reflexivity. Qed.
-Lemma key_str32 : forall rest k, mp_read_key (mk (bz 0xDB :: rest) k) = key_hdr_then 4 (mk rest (k + 1)).
+Lemma key_str32 : forall rest k, mp_read_key (rd_at (bz 0xDB :: rest) k) = key_hdr_then 4 (rd_at rest (k + 1)).
 Proof. reflexivity. Qed.
 
 Lemma key_hdr_then_be : forall w n rest k, 0 <= n < 2 ^ (8 * Z.of_nat w) -> n <= max_string_length ->
-  key_hdr_then w (mk (be_bytes w n ++ rest) k) = key_payload n (mk rest (k + N.of_nat w)).
+  key_hdr_then w (rd_at (be_bytes w n ++ rest) k) = key_payload n (rd_at rest (k + N.of_nat w)).
 Proof.
   intros w n rest k H Hm. unfold key_hdr_then.
   rewrite (read_n_app' w) by apply be_bytes_length. cbv zeta.
@@ -728,8 +738,8 @@ Proof.
 Qed.
 
 Lemma key_header : forall n rest k, 0 <= n <= max_string_length ->
-  mp_read_key (mk (mp_str_header n ++ rest) k) =
-    key_payload n (mk rest (k + N.of_nat (length (mp_str_header n)))).
+  mp_read_key (rd_at (mp_str_header n ++ rest) k) =
+    key_payload n (rd_at rest (k + N.of_nat (length (mp_str_header n)))).
 Proof.
   intros n rest k H. unfold max_string_length in H. unfold mp_str_header.
   destruct (Z.ltb_spec n 0x20) as [H1|H1].
@@ -746,7 +756,7 @@ Proof.
 Qed.
 
 Lemma read_key_rt : forall s rest k, Z.of_nat (length s) <= max_string_length ->
-  mp_read_key (mk (mp_str s ++ rest) k) = (Ok, s, mk rest (k + N.of_nat (length (mp_str s)))).
+  mp_read_key (rd_at (mp_str s ++ rest) k) = (Ok, s, rd_at rest (k + N.of_nat (length (mp_str s)))).
 Proof.
   intros s rest k H. unfold mp_str. rewrite <- app_assoc.
   rewrite key_header by lia. unfold key_payload.
@@ -762,11 +772,11 @@ Proof. intros. cbn [concat]. rewrite <- app_assoc. reflexivity. Qed.
 
 Lemma array_loop_rt : forall (pv : pvT) (norm : jv -> jv) (l : list jv),
   (forall x, In x l -> forall rest k,
-     pv None true (mk (mp_ser x ++ rest) k) =
-       (Ok, norm x, mk rest (k + N.of_nat (length (mp_ser x))))) ->
+     pv None true (rd_at (mp_ser x ++ rest) k) =
+       (Ok, norm x, rd_at rest (k + N.of_nat (length (mp_ser x))))) ->
   forall acc rest k,
-    mp_array_loop pv (length l) None true acc (mk (concat (map mp_ser l) ++ rest) k) =
-      (Ok, acc ++ map norm l, mk rest (k + N.of_nat (length (concat (map mp_ser l))))).
+    mp_array_loop pv (length l) None true acc (rd_at (concat (map mp_ser l) ++ rest) k) =
+      (Ok, acc ++ map norm l, rd_at rest (k + N.of_nat (length (concat (map mp_ser l))))).
 Proof.
   intros pv norm l. induction l as [|x l IH]; intros Hpv acc rest k.
   - cbn [length mp_array_loop map concat app]. rewrite app_nil_r, N.add_0_r. reflexivity.
@@ -782,12 +792,12 @@ Lemma object_loop_rt : forall (pv : pvT) (norm : jv -> jv) (l : list (bytes * jv
   (forall kv, In kv l ->
      Z.of_nat (length (fst kv)) <= max_string_length /\
      forall rest k,
-       pv None true (mk (mp_ser (snd kv) ++ rest) k) =
-         (Ok, norm (snd kv), mk rest (k + N.of_nat (length (mp_ser (snd kv)))))) ->
+       pv None true (rd_at (mp_ser (snd kv) ++ rest) k) =
+         (Ok, norm (snd kv), rd_at rest (k + N.of_nat (length (mp_ser (snd kv)))))) ->
   forall acc rest k,
-    mp_object_loop pv (length l) None acc (mk (concat (map ser_member l) ++ rest) k) =
+    mp_object_loop pv (length l) None acc (rd_at (concat (map ser_member l) ++ rest) k) =
       (Ok, acc ++ map (fun kv => (fst kv, norm (snd kv))) l,
-       mk rest (k + N.of_nat (length (concat (map ser_member l))))).
+       rd_at rest (k + N.of_nat (length (concat (map ser_member l))))).
 Proof.
   intros pv norm l. induction l as [|x l IH]; intros Hpv acc rest k.
   - cbn [length mp_object_loop map concat app]. rewrite app_nil_r, N.add_0_r. reflexivity.
@@ -809,8 +819,8 @@ Proof.
   lia.
 Qed.
 
-Lemma clip_count_exact : forall n l k, (n <= length l)%nat -> clip_count (Z.of_nat n) (mk l k) = n.
-Proof. intros n l k H. unfold clip_count. cbn [mk m_rest]. rewrite Z.min_l by lia. apply Nat2Z.id. Qed.
+Lemma clip_count_exact : forall n l k, (n <= length l)%nat -> clip_count (Z.of_nat n) (rd_at l k) = n.
+Proof. intros n l k H. unfold clip_count. cbn [rd_at m_rest]. rewrite Z.min_l by lia. apply Nat2Z.id. Qed.
 
 (* ------------------------------------------------------------------------------------- *)
 (* floats *)
@@ -830,29 +840,29 @@ Definition mp_norm_f32 (f : spec_float) : jv :=
     if f_eq f (f_of_Z F32 t) then JInt t else JFloat f
   else JFloat f.
 
-Definition mp_norm_f64 (f : spec_float) : jv :=
+Definition mp_norm_f64 (ud : bool) (f : spec_float) : jv :=
   let v32 := fconv F32 f in
-  if f_eq (fconv F64 v32) f then mp_norm_f32 v32 else jv_of_double true f.
+  if f_eq (fconv F64 v32) f then mp_norm_f32 v32 else jv_of_double ud f.
 
 Lemma body_f32 : forall cf pv' Lz rest k,
-  mp_body cf pv' Lz None (mk (bz 0xCA :: rest) k) =
-    match read_n 4 (mk rest (k + 1)) with
+  mp_body cf pv' Lz None (rd_at (bz 0xCA :: rest) k) =
+    match read_n 4 (rd_at rest (k + 1)) with
     | (Some l, r) => (Ok, JFloat (sf_of_bits F32 (be_value l 0)), r)
     | (None, r) => (IncompleteInput, JNull, r)
     end.
 Proof. reflexivity. Qed.
 
 Lemma body_f64 : forall cf pv' Lz rest k,
-  mp_body cf pv' Lz None (mk (bz 0xCB :: rest) k) =
-    match read_n 8 (mk rest (k + 1)) with
+  mp_body cf pv' Lz None (rd_at (bz 0xCB :: rest) k) =
+    match read_n 8 (rd_at rest (k + 1)) with
     | (Some l, r) => (Ok, jv_of_double (use_double cf) (sf_of_bits F64 (be_value l 0)), r)
     | (None, r) => (IncompleteInput, JNull, r)
     end.
 Proof. reflexivity. Qed.
 
 Lemma mp_f32_body : forall cf pv' Lz f rest k, f32_ok f ->
-  mp_body cf pv' Lz None (mk (mp_f32 f ++ rest) k) =
-    (Ok, mp_norm_f32 f, mk rest (k + N.of_nat (length (mp_f32 f)))).
+  mp_body cf pv' Lz None (rd_at (mp_f32 f ++ rest) k) =
+    (Ok, mp_norm_f32 f, rd_at rest (k + N.of_nat (length (mp_f32 f)))).
 Proof.
   intros cf pv' Lz f rest k [[Hb Hr] Ht]. unfold mp_f32, mp_norm_f32.
   destruct (f32_fits_i64 f) eqn:Fit.
@@ -864,15 +874,15 @@ Proof.
     rewrite be_value_be_bytes by exact Hb. rewrite Hr, be_bytes_length, reads_assoc. reflexivity.
 Qed.
 
-Lemma mp_f64_body : forall cf pv' Lz f rest k, use_double cf = true -> f64_ok f ->
-  mp_body cf pv' Lz None (mk (mp_f64 f ++ rest) k) =
-    (Ok, mp_norm_f64 f, mk rest (k + N.of_nat (length (mp_f64 f)))).
+Lemma mp_f64_body : forall cf pv' Lz f rest k, f64_ok f ->
+  mp_body cf pv' Lz None (rd_at (mp_f64 f ++ rest) k) =
+    (Ok, mp_norm_f64 (use_double cf) f, rd_at rest (k + N.of_nat (length (mp_f64 f)))).
 Proof.
-  intros cf pv' Lz f rest k UD [[Hb Hr] H32]. unfold mp_f64, mp_norm_f64. cbv zeta.
+  intros cf pv' Lz f rest k [[Hb Hr] H32]. unfold mp_f64, mp_norm_f64. cbv zeta.
   destruct (f_eq (fconv F64 (fconv F32 f)) f) eqn:E.
   - apply mp_f32_body. exact H32.
   - cbn [app length]. rewrite body_f64. rewrite (read_n_app' 8) by apply be_bytes_length.
-    rewrite be_value_be_bytes by exact Hb. rewrite Hr, UD, be_bytes_length, reads_assoc. reflexivity.
+    rewrite be_value_be_bytes by exact Hb. rewrite Hr, be_bytes_length, reads_assoc. reflexivity.
 Qed.
 
 (* ------------------------------------------------------------------------------------- *)
@@ -897,12 +907,12 @@ Section Encoding.
   Let P := 2 ^ mw ft.
   Let Q := 2 ^ ew ft.
 
-  Lemma P_pos : 0 < P. Proof. apply Z.pow_pos_nonneg; lia. Qed.
-  Lemma Q_pos : 0 < Q. Proof. apply Z.pow_pos_nonneg; lia. Qed.
-  Lemma PQ_eq : 2 ^ (mw ft + ew ft) = P * Q. Proof. apply Z.pow_add_r; lia. Qed.
-  Lemma Q_half : Q = 2 * 2 ^ (ew ft - 1).
+  Lemma enc_P_pos : 0 < P. Proof. apply Z.pow_pos_nonneg; lia. Qed.
+  Lemma enc_Q_pos : 0 < Q. Proof. apply Z.pow_pos_nonneg; lia. Qed.
+  Lemma enc_PQ_eq : 2 ^ (mw ft + ew ft) = P * Q. Proof. apply Z.pow_add_r; lia. Qed.
+  Lemma enc_Q_half : Q = 2 * 2 ^ (ew ft - 1).
   Proof. unfold Q. replace (ew ft) with (ew ft - 1 + 1) at 1 by lia. rewrite Z.pow_add_r by lia. lia. Qed.
-  Lemma P_half : P = 2 * 2 ^ (mw ft - 1).
+  Lemma enc_P_half : P = 2 * 2 ^ (mw ft - 1).
   Proof. unfold P. replace (mw ft) with (mw ft - 1 + 1) at 1 by lia. rewrite Z.pow_add_r by lia. lia. Qed.
 
   Definition decode_fields (s : bool) (e m : Z) : spec_float :=
@@ -916,7 +926,7 @@ Section Encoding.
     0 <= sign_bit ft s + e * P + m < 2 ^ (mw ft + ew ft + 1) /\
     sf_of_bits ft (sign_bit ft s + e * P + m) = decode_fields s e m.
   Proof.
-    intros s e m He Hm. pose proof P_pos as HP. pose proof Q_pos as HQ. pose proof PQ_eq as HPQ.
+    intros s e m He Hm. pose proof enc_P_pos as HP. pose proof enc_Q_pos as HQ. pose proof enc_PQ_eq as HPQ.
     set (sb := if s then 1 else 0).
     assert (Hsb : sign_bit ft s = sb * (P * Q)).
     { unfold sign_bit, sb. rewrite HPQ. destruct s; lia. }
@@ -942,8 +952,8 @@ Section Encoding.
 
   Lemma valid_repr_ok : forall f, valid_binary (prec ft) (emax ft) f = true -> repr_ok ft f.
   Proof.
-    intros f Hv. pose proof P_pos as HP. pose proof Q_pos as HQ. pose proof Q_half as HQh.
-    pose proof P_half as HPh.
+    intros f Hv. pose proof enc_P_pos as HP. pose proof enc_Q_pos as HQ. pose proof enc_Q_half as HQh.
+    pose proof enc_P_half as HPh.
     assert (Hh : 0 < 2 ^ (ew ft - 1)) by (apply Z.pow_pos_nonneg; lia).
     assert (Hh2 : 2 <= 2 ^ (ew ft - 1)).
     { change 2 with (2 ^ 1) at 1. apply Z.pow_le_mono_r; lia. }
@@ -998,8 +1008,6 @@ Section Encoding.
         set (eb := e + bias ft + mw ft).
         assert (Heb : 1 <= eb <= Q - 2) by (unfold eb, bias; lia).
         destruct (sf_of_bits_fields s eb (Z.pos m - P)) as [R D]; [lia|lia|].
-        replace (sign_bit ft s + eb * P + (Z.pos m - P)) with
-          (sign_bit ft s + eb * P + (Z.pos m - P)) in R by reflexivity.
         split; [exact R|]. rewrite D. unfold decode_fields. fold P Q.
         destruct (Z.eqb_spec eb 0) as [H0|_]; [lia|].
         destruct (Z.eqb_spec eb (Q - 1)) as [H0|_]; [lia|].
@@ -1317,14 +1325,17 @@ Qed.
 (* ------------------------------------------------------------------------------------- *)
 (* Part 4 — whole documents *)
 
-Fixpoint mp_norm (v : jv) : jv :=
+(* [ud] = ARDUINOJSON_USE_DOUBLE: without it a float64 that is not a float32 is narrowed *)
+Fixpoint mp_norm_gen (ud : bool) (v : jv) : jv :=
   match v with
   | JFloat f => mp_norm_f32 f
-  | JDouble f => mp_norm_f64 f
-  | JArr l => JArr (map mp_norm l)
-  | JObj l => JObj (map (fun kv => (fst kv, mp_norm (snd kv))) l)
+  | JDouble f => mp_norm_f64 ud f
+  | JArr l => JArr (map (mp_norm_gen ud) l)
+  | JObj l => JObj (map (fun kv => (fst kv, mp_norm_gen ud (snd kv))) l)
   | _ => v
   end.
+
+Definition mp_norm : jv -> jv := mp_norm_gen true.
 
 Definition str_ok (s : bytes) : Prop :=
   Forall (fun b => (b < 256)%N) s /\ Z.of_nat (length s) <= max_string_length.
@@ -1395,37 +1406,37 @@ Proof.
 Qed.
 
 Lemma body_nil : forall cf pv' Lz rest k,
-  mp_body cf pv' Lz None (mk (bz 0xC0 :: rest) k) = (Ok, JNull, mk rest (k + 1)).
+  mp_body cf pv' Lz None (rd_at (bz 0xC0 :: rest) k) = (Ok, JNull, rd_at rest (k + 1)).
 Proof. reflexivity. Qed.
 Lemma body_false : forall cf pv' Lz rest k,
-  mp_body cf pv' Lz None (mk (bz 0xC2 :: rest) k) = (Ok, JBool false, mk rest (k + 1)).
+  mp_body cf pv' Lz None (rd_at (bz 0xC2 :: rest) k) = (Ok, JBool false, rd_at rest (k + 1)).
 Proof. reflexivity. Qed.
 Lemma body_true : forall cf pv' Lz rest k,
-  mp_body cf pv' Lz None (mk (bz 0xC3 :: rest) k) = (Ok, JBool true, mk rest (k + 1)).
+  mp_body cf pv' Lz None (rd_at (bz 0xC3 :: rest) k) = (Ok, JBool true, rd_at rest (k + 1)).
 Proof. reflexivity. Qed.
 
-Theorem mp_roundtrip_gen : forall cf, use_double cf = true -> forall L v, mp_ok v ->
+Theorem mp_roundtrip_gen : forall cf L v, mp_ok v ->
   (nesting v <= L)%nat -> forall rest k,
-  mp_parse cf L None true (mk (mp_ser v ++ rest) k) =
-    (Ok, mp_norm v, mk rest (k + N.of_nat (length (mp_ser v)))).
+  mp_parse cf L None true (rd_at (mp_ser v ++ rest) k) =
+    (Ok, mp_norm_gen (use_double cf) v, rd_at rest (k + N.of_nat (length (mp_ser v)))).
 Proof.
-  intros cf UD. induction L as [|L IH]; intros v Hok Hn rest k; rewrite mp_parse_eq.
-  - destruct v; cbn [mp_ser mp_norm]; cbn [mp_ok] in Hok.
+  intros cf. induction L as [|L IH]; intros v Hok Hn rest k; rewrite mp_parse_eq.
+  - destruct v; cbn [mp_ser mp_norm_gen]; cbn [mp_ok] in Hok.
     + apply body_nil.
     + destruct b; [apply body_true|apply body_false].
     + apply mp_int_body; exact Hok.
     + apply mp_f32_body; apply valid32_ok; exact Hok.
-    + apply mp_f64_body; [exact UD|apply valid64_ok; exact Hok].
+    + apply mp_f64_body; apply valid64_ok; exact Hok.
     + apply mp_str_body; apply Hok.
     + destruct Hok.
     + cbn [nesting] in Hn. lia.
     + cbn [nesting] in Hn. lia.
-  - destruct v; cbn [mp_ser mp_norm]; cbn [mp_ok] in Hok.
+  - destruct v; cbn [mp_ser mp_norm_gen]; cbn [mp_ok] in Hok.
     + apply body_nil.
     + destruct b; [apply body_true|apply body_false].
     + apply mp_int_body; exact Hok.
     + apply mp_f32_body; apply valid32_ok; exact Hok.
-    + apply mp_f64_body; [exact UD|apply valid64_ok; exact Hok].
+    + apply mp_f64_body; apply valid64_ok; exact Hok.
     + apply mp_str_body; apply Hok.
     + destruct Hok.
     + destruct Hok as [Hlen Hall]. cbn [nesting] in Hn. rewrite <- app_assoc.
@@ -1434,7 +1445,7 @@ Proof.
       2:{ rewrite app_length.
           pose proof (concat_length_ge jv mp_ser l
                         (fun x Hx => mp_ser_nonempty x (fold_and_In jv mp_ok l Hall x Hx))). lia. }
-      rewrite (array_loop_rt (mp_parse cf L) mp_norm l).
+      rewrite (array_loop_rt (mp_parse cf L) (mp_norm_gen (use_double cf)) l).
       2:{ intros x Hx rest' k'. apply IH.
           - exact (fold_and_In jv mp_ok l Hall x Hx).
           - pose proof (nesting_In jv nesting l x Hx). lia. }
@@ -1450,7 +1461,7 @@ Proof.
           { apply concat_length_ge. intros x Hx. unfold ser_member. rewrite app_length.
             pose proof (mp_str_nonempty (fst x)). lia. }
           lia. }
-      rewrite (object_loop_rt (mp_parse cf L) mp_norm l).
+      rewrite (object_loop_rt (mp_parse cf L) (mp_norm_gen (use_double cf)) l).
       2:{ intros x Hx. destruct (Hin x Hx) as [[_ Hk] Hv]. split; [exact Hk|].
           intros rest' k'. apply IH; [exact Hv|].
           pose proof (nesting_In _ (fun kv => nesting (snd kv)) l x Hx). cbv beta in *. lia. }
@@ -1462,8 +1473,8 @@ Theorem mp_roundtrip : forall cf v, use_double cf = true -> mp_ok v -> forall L 
   mp_parse cf L None true {| m_rest := mp_ser v ++ rest; m_reads := 0 |}
     = (Ok, mp_norm v, {| m_rest := rest; m_reads := N.of_nat (length (mp_ser v)) |}).
 Proof.
-  intros cf v UD Hok L rest Hn.
-  exact (mp_roundtrip_gen cf UD L v Hok Hn rest 0%N).
+  intros cf v UD Hok L rest Hn. unfold mp_norm.
+  pose proof (mp_roundtrip_gen cf L v Hok Hn rest 0%N) as H. rewrite UD in H. exact H.
 Qed.
 
 Corollary mp_run_roundtrip : forall cf v L, use_double cf = true -> mp_ok v -> (nesting v <= L)%nat ->
@@ -1518,7 +1529,7 @@ Proof.
   - cbn [mp_ser]. unfold mp_f32. rewrite Fit. reflexivity.
 Qed.
 
-Lemma mp_ser_norm_f64 : forall f, mp_ser (mp_norm_f64 f) = mp_f64 f.
+Lemma mp_ser_norm_f64 : forall f, mp_ser (mp_norm_f64 true f) = mp_f64 f.
 Proof.
   intros f. unfold mp_norm_f64, mp_f64. cbv zeta.
   destruct (f_eq (fconv F64 (fconv F32 f)) f) eqn:E.
@@ -1527,12 +1538,13 @@ Proof.
     unfold mp_f64. cbv zeta. rewrite E. reflexivity.
 Qed.
 
-Lemma mp_fixpoint_gen : forall L v, (nesting v <= L)%nat -> mp_ser (mp_norm v) = mp_ser v.
+Lemma mp_fixpoint_gen : forall L v, (nesting v <= L)%nat ->
+  mp_ser (mp_norm_gen true v) = mp_ser v.
 Proof.
   induction L as [|L IH]; intros v Hn.
-  - destruct v; cbn [mp_norm]; try reflexivity;
+  - destruct v; cbn [mp_norm_gen]; try reflexivity;
       [apply mp_ser_norm_f32|apply mp_ser_norm_f64|cbn [nesting] in Hn; lia|cbn [nesting] in Hn; lia].
-  - destruct v; cbn [mp_norm]; try reflexivity;
+  - destruct v; cbn [mp_norm_gen]; try reflexivity;
       [apply mp_ser_norm_f32|apply mp_ser_norm_f64| |].
     + cbn [nesting] in Hn. cbn [mp_ser]. rewrite map_length, map_map.
       f_equal. f_equal. apply map_ext_in. intros x Hx. apply IH.
@@ -1545,3 +1557,437 @@ Qed.
 Corollary mp_fixpoint : forall v, mp_ok v -> mp_ser (mp_norm v) = mp_ser v.
 Proof. intros v _. apply (mp_fixpoint_gen (nesting v)). lia. Qed.
 
+
+(* ------------------------------------------------------------------------------------- *)
+(* Part 5 — strict prefixes of a document are reported as incomplete *)
+
+Definition err_of {A : Type} (x : code * A * mrd) : code := fst (fst x).
+
+Lemma read_n_short : forall n l k, (length l < n)%nat -> exists r, read_n n (rd_at l k) = (None, r).
+Proof.
+  intros n l k H. unfold read_n. cbn [rd_at m_rest m_reads].
+  rewrite firstn_all2 by lia.
+  destruct (Nat.eqb_spec (length l) n) as [E|_]; [lia|]. eexists. reflexivity.
+Qed.
+
+Lemma read_z_short : forall n l k, Z.of_nat (length l) < n -> exists r, read_z n (rd_at l k) = (None, r).
+Proof.
+  intros n l k H. unfold read_z. cbn [rd_at m_rest m_reads].
+  destruct (Z.leb_spec n (Z.of_nat (length l))) as [H1|_]; [lia|]. eexists. reflexivity.
+Qed.
+
+Lemma body_empty : forall cf pv' Lz f k, err_of (mp_body cf pv' Lz f (rd_at [] k)) = IncompleteInput.
+Proof. reflexivity. Qed.
+
+Lemma key_empty : forall k, err_of (mp_read_key (rd_at [] k)) = IncompleteInput.
+Proof. reflexivity. Qed.
+
+Lemma prefix_cons : forall (p q : bytes) c t, p ++ q = c :: t ->
+  p = [] \/ exists p', p = c :: p' /\ p' ++ q = t.
+Proof.
+  intros [|x p] q c t H; [left; reflexivity|right]. cbn [app] in H. injection H as -> H.
+  exists p. split; [reflexivity|exact H].
+Qed.
+
+Lemma split_app : forall (p q h s : bytes), p ++ q = h ++ s ->
+  (exists t, h = p ++ t /\ t <> []) \/ exists p'', p = h ++ p'' /\ p'' ++ q = s.
+Proof.
+  intros p q h s H. apply app_eq_app in H as [l [[-> ->]|[-> ->]]].
+  - right. exists l. split; reflexivity.
+  - destruct l as [|x l].
+    + right. exists []. rewrite !app_nil_r. split; reflexivity.
+    + left. exists (x :: l). split; [reflexivity|congruence].
+Qed.
+
+Lemma short_of_app : forall (p q t : bytes), p ++ q = t -> q <> [] -> (length p < length t)%nat.
+Proof.
+  intros p q t <- Hq. rewrite app_length. destruct q as [|x q]; [congruence|]. cbn [length]. lia.
+Qed.
+
+Lemma body_intcode_short : forall cf pv' Lz cb p' k, 0xCC <= Z.of_N cb <= 0xD3 ->
+  (length p' < Z.to_nat (2 ^ ((Z.of_N cb - 0xCC) mod 4)))%nat ->
+  err_of (mp_body cf pv' Lz None (rd_at (cb :: p') k)) = IncompleteInput.
+Proof.
+  intros cf pv' Lz cb p' k Hc Hl. rewrite body_intcode by exact Hc. cbv zeta.
+  destruct (read_n_short _ p' (k + 1)%N Hl) as [r E]. rewrite E. reflexivity.
+Qed.
+
+Lemma mp_int_prefix : forall cf pv' Lz z p q k, mp_int z = p ++ q -> q <> [] ->
+  err_of (mp_body cf pv' Lz None (rd_at p k)) = IncompleteInput.
+Proof.
+  intros cf pv' Lz z p q k H Hq. unfold mp_int, mp_uint in H.
+  assert (F1 : forall p, be_bytes 1 z = p ++ q ->
+               err_of (mp_body cf pv' Lz None (rd_at p k)) = IncompleteInput).
+  { intros p0 H0. rewrite be_bytes_1 in H0. symmetry in H0.
+    apply prefix_cons in H0 as [->|(p' & -> & H')]; [apply body_empty|].
+    apply app_eq_nil in H' as [_ ->]. congruence. }
+  assert (FW : forall cb w p, 0xCC <= Z.of_N cb <= 0xD3 ->
+               Z.to_nat (2 ^ ((Z.of_N cb - 0xCC) mod 4)) = w ->
+               cb :: be_bytes w z = p ++ q ->
+               err_of (mp_body cf pv' Lz None (rd_at p k)) = IncompleteInput).
+  { intros cb w p0 Hc Hw H0. symmetry in H0.
+    apply prefix_cons in H0 as [->|(p' & -> & H')]; [apply body_empty|].
+    apply body_intcode_short; [exact Hc|]. rewrite Hw.
+    pose proof (short_of_app _ _ _ H' Hq) as Hs. rewrite be_bytes_length in Hs. exact Hs. }
+  assert (FW' : forall cb w, cb :: be_bytes w z = p ++ q -> 0xCC <= Z.of_N cb <= 0xD3 ->
+               Z.to_nat (2 ^ ((Z.of_N cb - 0xCC) mod 4)) = w ->
+               err_of (mp_body cf pv' Lz None (rd_at p k)) = IncompleteInput).
+  { intros cb w H0 Hc Hw. exact (FW cb w p Hc Hw H0). }
+  destruct (0 <? z).
+  - destruct (z <=? 0x7F); [apply F1; exact H|].
+    destruct (z <=? 0xFF); [apply (FW' _ _ H); [vm_compute; split; discriminate|reflexivity]|].
+    destruct (z <=? 0xFFFF); [apply (FW' _ _ H); [vm_compute; split; discriminate|reflexivity]|].
+    destruct (z <=? 0xFFFFFFFF); apply (FW' _ _ H); try reflexivity; vm_compute; split; discriminate.
+  - destruct (-0x20 <=? z); [apply F1; exact H|].
+    destruct (-0x80 <=? z); [apply (FW' _ _ H); [vm_compute; split; discriminate|reflexivity]|].
+    destruct (-0x8000 <=? z); [apply (FW' _ _ H); [vm_compute; split; discriminate|reflexivity]|].
+    destruct (-0x80000000 <=? z); apply (FW' _ _ H); try reflexivity; vm_compute; split; discriminate.
+Qed.
+
+Lemma mp_f32_prefix : forall cf pv' Lz f p q k, mp_f32 f = p ++ q -> q <> [] ->
+  err_of (mp_body cf pv' Lz None (rd_at p k)) = IncompleteInput.
+Proof.
+  intros cf pv' Lz f p q k H Hq. unfold mp_f32 in H.
+  assert (FC : bz 0xCA :: be_bytes 4 (bits_of_sf F32 f) = p ++ q ->
+               err_of (mp_body cf pv' Lz None (rd_at p k)) = IncompleteInput).
+  { intros H0. symmetry in H0.
+    apply prefix_cons in H0 as [->|(p' & -> & H')]; [apply body_empty|].
+    rewrite body_f32.
+    pose proof (short_of_app _ _ _ H' Hq) as Hs. rewrite be_bytes_length in Hs.
+    destruct (read_n_short 4 p' (k + 1)%N Hs) as [r E]. rewrite E. reflexivity. }
+  destruct (f32_fits_i64 f); [|apply FC; exact H]. cbv zeta in H.
+  destruct (f_eq f (f_of_Z F32 (f_trunc f))); [|apply FC; exact H].
+  apply (mp_int_prefix cf pv' Lz _ p q k H Hq).
+Qed.
+
+Lemma mp_f64_prefix : forall cf pv' Lz f p q k, mp_f64 f = p ++ q -> q <> [] ->
+  err_of (mp_body cf pv' Lz None (rd_at p k)) = IncompleteInput.
+Proof.
+  intros cf pv' Lz f p q k H Hq. unfold mp_f64 in H. cbv zeta in H.
+  destruct (f_eq (fconv F64 (fconv F32 f)) f); [apply (mp_f32_prefix cf pv' Lz _ p q k H Hq)|].
+  symmetry in H. apply prefix_cons in H as [->|(p' & -> & H')]; [apply body_empty|].
+  rewrite body_f64.
+  pose proof (short_of_app _ _ _ H' Hq) as Hs. rewrite be_bytes_length in Hs.
+  destruct (read_n_short 8 p' (k + 1)%N Hs) as [r E]. rewrite E. reflexivity.
+Qed.
+
+(* a header cut short, or a complete header followed by a payload cut short *)
+Lemma hdr_then_prefix : forall w n K (p q s : bytes) k, 0 <= n < 2 ^ (8 * Z.of_nat w) ->
+  p ++ q = be_bytes w n ++ s ->
+  (forall p'' k', p'' ++ q = s -> err_of (K n (rd_at p'' k')) = IncompleteInput) ->
+  err_of (hdr_then w (rd_at p k) K) = IncompleteInput.
+Proof.
+  intros w n K p q s k Hn H HK. apply split_app in H as [(t & Et & Ht)|(p'' & -> & H')].
+  - symmetry in Et. pose proof (short_of_app _ _ _ Et Ht) as Hs.
+    rewrite be_bytes_length in Hs. unfold hdr_then.
+    destruct (read_n_short w p k Hs) as [r E]. rewrite E. reflexivity.
+  - rewrite hdr_then_be by exact Hn. apply HK. exact H'.
+Qed.
+
+Lemma str_payload_short : forall n p k, n <= max_string_length -> Z.of_nat (length p) < n ->
+  err_of (str_payload n (rd_at p k)) = IncompleteInput.
+Proof.
+  intros n p k Hm Hs. unfold str_payload.
+  destruct (Z.ltb_spec max_string_length n); [lia|].
+  destruct (read_z_short n p k Hs) as [r E]. rewrite E. reflexivity.
+Qed.
+
+Lemma mp_str_prefix : forall cf pv' Lz s p q k, Z.of_nat (length s) <= max_string_length ->
+  mp_str s = p ++ q -> q <> [] ->
+  err_of (mp_body cf pv' Lz None (rd_at p k)) = IncompleteInput.
+Proof.
+  intros cf pv' Lz s p q k Hm H Hq. unfold mp_str, mp_str_header in H.
+  set (n := Z.of_nat (length s)) in *.
+  assert (HK : forall p'' k', p'' ++ q = s -> err_of (str_payload n (rd_at p'' k')) = IncompleteInput).
+  { intros p'' k' H'. apply str_payload_short; [exact Hm|].
+    pose proof (short_of_app _ _ _ H' Hq). unfold n. lia. }
+  unfold max_string_length in Hm.
+  destruct (Z.ltb_spec n 0x20) as [H1|H1].
+  { cbn [app] in H. symmetry in H.
+    apply prefix_cons in H as [->|(p' & -> & H')]; [apply body_empty|].
+    rewrite body_fixstr by lia. apply HK. exact H'. }
+  destruct (Z.ltb_spec n 0x100) as [H2|H2].
+  { cbn [app] in H. symmetry in H.
+    apply prefix_cons in H as [->|(p' & -> & H')]; [apply body_empty|].
+    rewrite body_str8. apply (hdr_then_prefix 1 n str_payload p' q s); [|exact H'|exact HK].
+    change (2 ^ (8 * Z.of_nat 1)) with 256. lia. }
+  destruct (Z.ltb_spec n 0x10000) as [H3|H3]; [|lia].
+  cbn [app] in H. symmetry in H.
+  apply prefix_cons in H as [->|(p' & -> & H')]; [apply body_empty|].
+  rewrite body_str16. apply (hdr_then_prefix 2 n str_payload p' q s); [|exact H'|exact HK].
+  change (2 ^ (8 * Z.of_nat 2)) with 65536. lia.
+Qed.
+
+Lemma key_hdr_then_prefix : forall w n (p q s : bytes) k, 0 <= n < 2 ^ (8 * Z.of_nat w) ->
+  n <= max_string_length -> p ++ q = be_bytes w n ++ s ->
+  (forall p'' k', p'' ++ q = s -> err_of (key_payload n (rd_at p'' k')) = IncompleteInput) ->
+  err_of (key_hdr_then w (rd_at p k)) = IncompleteInput.
+Proof.
+  intros w n p q s k Hn Hm H HK. apply split_app in H as [(t & Et & Ht)|(p'' & -> & H')].
+  - symmetry in Et. pose proof (short_of_app _ _ _ Et Ht) as Hs.
+    rewrite be_bytes_length in Hs. unfold key_hdr_then.
+    destruct (read_n_short w p k Hs) as [r E]. rewrite E. reflexivity.
+  - rewrite key_hdr_then_be by assumption. apply HK. exact H'.
+Qed.
+
+Lemma key_prefix : forall s p q k, Z.of_nat (length s) <= max_string_length ->
+  mp_str s = p ++ q -> q <> [] -> err_of (mp_read_key (rd_at p k)) = IncompleteInput.
+Proof.
+  intros s p q k Hm H Hq. unfold mp_str, mp_str_header in H.
+  set (n := Z.of_nat (length s)) in *.
+  assert (HK : forall p'' k', p'' ++ q = s -> err_of (key_payload n (rd_at p'' k')) = IncompleteInput).
+  { intros p'' k' H'. unfold key_payload.
+    pose proof (short_of_app _ _ _ H' Hq) as Hs.
+    destruct (read_z_short n p'' k' ltac:(unfold n; lia)) as [r E]. rewrite E. reflexivity. }
+  pose proof Hm as Hm'. unfold max_string_length in Hm.
+  destruct (Z.ltb_spec n 0x20) as [H1|H1].
+  { cbn [app] in H. symmetry in H.
+    apply prefix_cons in H as [->|(p' & -> & H')]; [apply key_empty|].
+    rewrite key_fixstr by lia. apply HK. exact H'. }
+  destruct (Z.ltb_spec n 0x100) as [H2|H2].
+  { cbn [app] in H. symmetry in H.
+    apply prefix_cons in H as [->|(p' & -> & H')]; [apply key_empty|].
+    rewrite key_str8. apply (key_hdr_then_prefix 1 n p' q s); [|exact Hm'|exact H'|exact HK].
+    change (2 ^ (8 * Z.of_nat 1)) with 256. lia. }
+  destruct (Z.ltb_spec n 0x10000) as [H3|H3]; [|lia].
+  cbn [app] in H. symmetry in H.
+  apply prefix_cons in H as [->|(p' & -> & H')]; [apply key_empty|].
+  rewrite key_str16. apply (key_hdr_then_prefix 2 n p' q s); [|exact Hm'|exact H'|exact HK].
+  change (2 ^ (8 * Z.of_nat 2)) with 65536. lia.
+Qed.
+
+Lemma err_arr_payload : forall pv' n r,
+  err_of (arr_payload pv' false n r) = err_of (mp_array_loop pv' (clip_count n r) None true [] r).
+Proof.
+  intros pv' n r. unfold arr_payload.
+  destruct (mp_array_loop pv' (clip_count n r) None true [] r) as [[e l] r']. reflexivity.
+Qed.
+
+Lemma err_map_payload : forall pv' n r,
+  err_of (map_payload pv' false n r) = err_of (mp_object_loop pv' (clip_count n r) None [] r).
+Proof.
+  intros pv' n r. unfold map_payload.
+  destruct (mp_object_loop pv' (clip_count n r) None [] r) as [[e l] r']. reflexivity.
+Qed.
+
+Lemma arr_header_prefix : forall cf pv' Lz n (p q s : bytes) k, 0 <= n < 2 ^ 32 ->
+  p ++ q = mp_arr_header n ++ s -> q <> [] ->
+  (forall p'' k', p'' ++ q = s -> err_of (arr_payload pv' Lz n (rd_at p'' k')) = IncompleteInput) ->
+  err_of (mp_body cf pv' Lz None (rd_at p k)) = IncompleteInput.
+Proof.
+  intros cf pv' Lz n p q s k Hn H Hq HK. unfold mp_arr_header in H.
+  destruct (Z.ltb_spec n 0x10) as [H1|H1].
+  { cbn [app] in H.
+    apply prefix_cons in H as [->|(p' & -> & H')]; [apply body_empty|].
+    rewrite body_fixarr by lia. apply HK. exact H'. }
+  destruct (Z.ltb_spec n 0x10000) as [H2|H2].
+  { cbn [app] in H.
+    apply prefix_cons in H as [->|(p' & -> & H')]; [apply body_empty|].
+    rewrite body_arr16. apply (hdr_then_prefix 2 n _ p' q s); [|exact H'|exact HK].
+    change (2 ^ (8 * Z.of_nat 2)) with 65536. lia. }
+  cbn [app] in H.
+  apply prefix_cons in H as [->|(p' & -> & H')]; [apply body_empty|].
+  rewrite body_arr32. apply (hdr_then_prefix 4 n _ p' q s); [|exact H'|exact HK].
+  change (2 ^ (8 * Z.of_nat 4)) with (2 ^ 32). lia.
+Qed.
+
+Lemma map_header_prefix : forall cf pv' Lz n (p q s : bytes) k, 0 <= n < 2 ^ 32 ->
+  p ++ q = mp_map_header n ++ s -> q <> [] ->
+  (forall p'' k', p'' ++ q = s -> err_of (map_payload pv' Lz n (rd_at p'' k')) = IncompleteInput) ->
+  err_of (mp_body cf pv' Lz None (rd_at p k)) = IncompleteInput.
+Proof.
+  intros cf pv' Lz n p q s k Hn H Hq HK. unfold mp_map_header in H.
+  destruct (Z.ltb_spec n 0x10) as [H1|H1].
+  { cbn [app] in H.
+    apply prefix_cons in H as [->|(p' & -> & H')]; [apply body_empty|].
+    rewrite body_fixmap by lia. apply HK. exact H'. }
+  destruct (Z.ltb_spec n 0x10000) as [H2|H2].
+  { cbn [app] in H.
+    apply prefix_cons in H as [->|(p' & -> & H')]; [apply body_empty|].
+    rewrite body_map16. apply (hdr_then_prefix 2 n _ p' q s); [|exact H'|exact HK].
+    change (2 ^ (8 * Z.of_nat 2)) with 65536. lia. }
+  cbn [app] in H.
+  apply prefix_cons in H as [->|(p' & -> & H')]; [apply body_empty|].
+  rewrite body_map32. apply (hdr_then_prefix 4 n _ p' q s); [|exact H'|exact HK].
+  change (2 ^ (8 * Z.of_nat 4)) with (2 ^ 32). lia.
+Qed.
+
+(* where a cut falls inside a concatenation *)
+Lemma prefix_concat_map : forall (A : Type) (g : A -> bytes) (l : list A) (p q : bytes),
+  p ++ q = concat (map g l) -> q <> [] ->
+  exists l1 x l2 p'' q'',
+    l = l1 ++ x :: l2 /\ p = concat (map g l1) ++ p'' /\ g x = p'' ++ q'' /\ q'' <> [].
+Proof.
+  intros A g l. induction l as [|x l IH]; intros p q H Hq.
+  - cbn [map concat] in H. apply app_eq_nil in H as [_ ->]. congruence.
+  - cbn [map concat] in H. apply app_eq_app in H as [t [[-> H2]|[H1 ->]]].
+    + (* the cut is after g x *)
+      symmetry in H2. destruct (IH t q H2 Hq) as (l1 & y & l2 & p'' & q'' & -> & -> & Hy & Hq'').
+      exists (x :: l1), y, l2, p'', q''. cbn [map concat app]. rewrite app_assoc. auto.
+    + (* the cut is inside g x *)
+      destruct t as [|b t].
+      * (* exactly at the end of g x: it falls at the start of the rest *)
+        rewrite app_nil_r in H1. cbn [app] in Hq.
+        destruct (IH [] (concat (map g l)) eq_refl Hq) as (l1 & y & l2 & p'' & q'' & -> & E & Hy & Hq'').
+        exists (x :: l1), y, l2, p'', q''. cbn [map concat app].
+        rewrite <- app_assoc, <- E, app_nil_r. rewrite H1. auto.
+      * exists [], x, l, p, (b :: t). cbn [map concat app]. repeat split; auto. congruence.
+Qed.
+
+Lemma array_loop_prefix : forall (pv : pvT) (norm : jv -> jv) (l1 : list jv) (p'' : bytes),
+  (forall x, In x l1 -> forall rest k,
+     pv None true (rd_at (mp_ser x ++ rest) k) =
+       (Ok, norm x, rd_at rest (k + N.of_nat (length (mp_ser x))))) ->
+  (forall k, err_of (pv None true (rd_at p'' k)) = IncompleteInput) ->
+  forall cnt acc k, (length l1 < cnt)%nat ->
+    err_of (mp_array_loop pv cnt None true acc (rd_at (concat (map mp_ser l1) ++ p'') k)) =
+      IncompleteInput.
+Proof.
+  intros pv norm l1 p''. induction l1 as [|x l1 IH]; intros Hrt Hcut cnt acc k Hc.
+  - destruct cnt as [|cnt]; [cbn in Hc; lia|]. cbn [map concat app mp_array_loop f_allow].
+    specialize (Hcut k). destruct (pv None true (rd_at p'' k)) as [[e v] r]. cbn in Hcut. subst e.
+    reflexivity.
+  - destruct cnt as [|cnt]; [cbn in Hc; lia|]. cbn [map mp_array_loop f_allow].
+    rewrite concat_cons_app. rewrite (Hrt x (or_introl eq_refl)).
+    apply IH; [intros y Hy; apply Hrt; right; exact Hy|exact Hcut|cbn [length] in Hc; lia].
+Qed.
+
+Lemma object_loop_prefix : forall (pv : pvT) (norm : jv -> jv) (l1 : list (bytes * jv)) (p'' : bytes),
+  (forall kv, In kv l1 ->
+     Z.of_nat (length (fst kv)) <= max_string_length /\
+     forall rest k,
+       pv None true (rd_at (mp_ser (snd kv) ++ rest) k) =
+         (Ok, norm (snd kv), rd_at rest (k + N.of_nat (length (mp_ser (snd kv)))))) ->
+  ((forall k, err_of (mp_read_key (rd_at p'' k)) = IncompleteInput) \/
+   (exists key p3, p'' = mp_str key ++ p3 /\ Z.of_nat (length key) <= max_string_length /\
+                   forall k, err_of (pv None true (rd_at p3 k)) = IncompleteInput)) ->
+  forall cnt acc k, (length l1 < cnt)%nat ->
+    err_of (mp_object_loop pv cnt None acc (rd_at (concat (map ser_member l1) ++ p'') k)) =
+      IncompleteInput.
+Proof.
+  intros pv norm l1 p''. induction l1 as [|x l1 IH]; intros Hrt Hcut cnt acc k Hc.
+  - destruct cnt as [|cnt]; [cbn in Hc; lia|]. cbn [map concat app mp_object_loop].
+    destruct Hcut as [Hkey|(key & p3 & -> & Hk & Hv)].
+    + specialize (Hkey k). destruct (mp_read_key (rd_at p'' k)) as [[e v] r]. cbn in Hkey. subst e.
+      reflexivity.
+    + rewrite read_key_rt by exact Hk. cbn [f_member f_allow].
+      specialize (Hv (k + N.of_nat (length (mp_str key)))%N).
+      destruct (pv None true (rd_at p3 (k + N.of_nat (length (mp_str key)))%N)) as [[e v] r].
+      cbn in Hv. subst e. reflexivity.
+  - destruct cnt as [|cnt]; [cbn in Hc; lia|]. cbn [map mp_object_loop].
+    rewrite concat_cons_app. destruct (Hrt x (or_introl eq_refl)) as [Hk Hv].
+    unfold ser_member at 1. rewrite <- app_assoc. rewrite read_key_rt by exact Hk.
+    cbn [f_member f_allow]. rewrite Hv.
+    apply IH; [intros y Hy; apply Hrt; right; exact Hy|exact Hcut|cbn [length] in Hc; lia].
+Qed.
+
+Lemma clip_count_gt : forall n m l k, (m < n)%nat -> (m <= length l)%nat ->
+  (m < clip_count (Z.of_nat n) (rd_at l k))%nat.
+Proof. intros n m l k H1 H2. unfold clip_count. cbn [rd_at m_rest]. lia. Qed.
+
+Theorem mp_prefix_gen : forall cf L v, mp_ok v ->
+  (nesting v <= L)%nat -> forall p q k, mp_ser v = p ++ q -> q <> [] ->
+  err_of (mp_parse cf L None true (rd_at p k)) = IncompleteInput.
+Proof.
+  intros cf. induction L as [|L IH]; intros v Hok Hn p q k H Hq; rewrite mp_parse_eq.
+  - destruct v; cbn [mp_ser] in H; cbn [mp_ok] in Hok.
+    + symmetry in H. apply prefix_cons in H as [->|(p' & -> & H')]; [apply body_empty|].
+      apply app_eq_nil in H' as [_ ->]. congruence.
+    + symmetry in H. apply prefix_cons in H as [->|(p' & -> & H')]; [apply body_empty|].
+      apply app_eq_nil in H' as [_ ->]. congruence.
+    + apply (mp_int_prefix _ _ _ _ _ _ _ H Hq).
+    + apply (mp_f32_prefix _ _ _ _ _ _ _ H Hq).
+    + apply (mp_f64_prefix _ _ _ _ _ _ _ H Hq).
+    + apply (mp_str_prefix _ _ _ _ _ _ _ (proj2 Hok) H Hq).
+    + destruct Hok.
+    + cbn [nesting] in Hn. lia.
+    + cbn [nesting] in Hn. lia.
+  - destruct v; cbn [mp_ser] in H; cbn [mp_ok] in Hok.
+    + symmetry in H. apply prefix_cons in H as [->|(p' & -> & H')]; [apply body_empty|].
+      apply app_eq_nil in H' as [_ ->]. congruence.
+    + symmetry in H. apply prefix_cons in H as [->|(p' & -> & H')]; [apply body_empty|].
+      apply app_eq_nil in H' as [_ ->]. congruence.
+    + apply (mp_int_prefix _ _ _ _ _ _ _ H Hq).
+    + apply (mp_f32_prefix _ _ _ _ _ _ _ H Hq).
+    + apply (mp_f64_prefix _ _ _ _ _ _ _ H Hq).
+    + apply (mp_str_prefix _ _ _ _ _ _ _ (proj2 Hok) H Hq).
+    + destruct Hok.
+    + destruct Hok as [Hlen Hall]. cbn [nesting] in Hn. cbn [pv_of is_O]. symmetry in H.
+      apply (arr_header_prefix cf _ _ (Z.of_nat (length l)) p q (concat (map mp_ser l)) k); [lia|exact H|exact Hq|].
+      intros p'' k' H'.
+      destruct (prefix_concat_map jv mp_ser l p'' q H' Hq)
+        as (l1 & x & l2 & p3 & q3 & El & Ep & Ex & Hq3).
+      rewrite err_arr_payload, Ep.
+      assert (Hin : forall y, In y l -> mp_ok y /\ (nesting y <= L)%nat).
+      { intros y Hy. split; [exact (fold_and_In jv mp_ok l Hall y Hy)|].
+        pose proof (nesting_In jv nesting l y Hy). lia. }
+      apply (array_loop_prefix (mp_parse cf L) (mp_norm_gen (use_double cf)) l1 p3).
+      * intros y Hy rest' k2. destruct (Hin y) as [Hy1 Hy2]; [rewrite El; apply in_or_app; left; exact Hy|].
+        apply mp_roundtrip_gen; assumption.
+      * intros k2. destruct (Hin x) as [Hx1 Hx2]; [rewrite El; apply in_or_app; right; left; reflexivity|].
+        apply (IH x Hx1 Hx2 p3 q3 k2 Ex Hq3).
+      * apply clip_count_gt.
+        -- rewrite El, app_length. cbn [length]. lia.
+        -- rewrite app_length.
+           assert (length l1 <= length (concat (map mp_ser l1)))%nat; [|lia].
+           apply concat_length_ge. intros y Hy. apply mp_ser_nonempty.
+           apply Hin. rewrite El. apply in_or_app. left. exact Hy.
+    + destruct Hok as [Hlen Hall]. cbn [nesting] in Hn. cbn [pv_of is_O]. symmetry in H.
+      change (map (fun kv : bytes * jv => mp_str (fst kv) ++ mp_ser (snd kv)) l)
+        with (map ser_member l) in H.
+      apply (map_header_prefix cf _ _ (Z.of_nat (length l)) p q (concat (map ser_member l)) k); [lia|exact H|exact Hq|].
+      intros p'' k' H'.
+      destruct (prefix_concat_map _ ser_member l p'' q H' Hq)
+        as (l1 & x & l2 & p3 & q3 & El & Ep & Ex & Hq3).
+      rewrite err_map_payload, Ep.
+      pose proof (fold_and_In _ (fun kv => str_ok (fst kv) /\ mp_ok (snd kv)) l Hall) as Hin0.
+      assert (Hin : forall y, In y l ->
+                Z.of_nat (length (fst y)) <= max_string_length /\ mp_ok (snd y) /\
+                (nesting (snd y) <= L)%nat).
+      { intros y Hy. destruct (Hin0 y Hy) as [[_ Hk] Hv]. split; [exact Hk|]. split; [exact Hv|].
+        pose proof (nesting_In _ (fun kv => nesting (snd kv)) l y Hy). cbv beta in *. lia. }
+      apply (object_loop_prefix (mp_parse cf L) (mp_norm_gen (use_double cf)) l1 p3).
+      * intros y Hy. destruct (Hin y) as (Hy0 & Hy1 & Hy2); [rewrite El; apply in_or_app; left; exact Hy|].
+        split; [exact Hy0|]. intros rest' k2. apply mp_roundtrip_gen; assumption.
+      * destruct (Hin x) as (Hx0 & Hx1 & Hx2); [rewrite El; apply in_or_app; right; left; reflexivity|].
+        unfold ser_member in Ex. symmetry in Ex.
+        apply split_app in Ex as [(t & Et & Ht)|(p4 & -> & E4)].
+        -- left. intros k2. apply (key_prefix (fst x) p3 t k2 Hx0 Et Ht).
+        -- right. exists (fst x), p4. split; [reflexivity|]. split; [exact Hx0|].
+           intros k2. symmetry in E4. apply (IH (snd x) Hx1 Hx2 p4 q3 k2 E4 Hq3).
+      * apply clip_count_gt.
+        -- rewrite El, app_length. cbn [length]. lia.
+        -- rewrite app_length.
+           assert (length l1 <= length (concat (map ser_member l1)))%nat; [|lia].
+           apply concat_length_ge. intros y Hy. unfold ser_member. rewrite app_length.
+           pose proof (mp_str_nonempty (fst y)). lia.
+Qed.
+
+Theorem mp_prefix_incomplete : forall cf v L, mp_ok v ->
+  (nesting v <= L)%nat -> forall p q, mp_ser v = p ++ q -> q <> [] ->
+  mp_err (mp_run cf None L p) = match p with [] => EmptyInput | _ => IncompleteInput end.
+Proof.
+  intros cf v L Hok Hn p q H Hq. unfold mp_run.
+  pose proof (mp_prefix_gen cf L v Hok Hn p q 0%N H Hq) as He. unfold rd_at in He.
+  destruct (mp_parse cf L None true {| m_rest := p; m_reads := 0 |}) as [[e v'] r].
+  cbn in He. subst e. destruct p; reflexivity.
+Qed.
+
+(* whatever the float configuration: one object is consumed, exactly, and what follows is left *)
+Corollary mp_run_consumes_one : forall cf v L rest, mp_ok v -> (nesting v <= L)%nat ->
+  mp_run cf None L (mp_ser v ++ rest) =
+    {| mp_err := Ok; mp_doc := mp_norm_gen (use_double cf) v;
+       mp_rd := {| m_rest := rest; m_reads := N.of_nat (length (mp_ser v)) |} |}.
+Proof.
+  intros cf v L rest Hok Hn. unfold mp_run.
+  pose proof (mp_roundtrip_gen cf L v Hok Hn rest 0%N) as H. unfold rd_at in H.
+  rewrite N.add_0_l in H. rewrite H.
+  pose proof (mp_ser_nonempty v Hok) as Hne.
+  destruct (mp_ser v) as [|b t]; [cbn in Hne; lia|]. reflexivity.
+Qed.
+
+(* the nesting hypothesis of mp_prefix_incomplete is needed: [[1]] cut after two bytes, budget 1 *)
+Example prefix_needs_depth :
+  mp_ser (JArr [JArr [JInt 1]]) = [0x91; 0x91; 1]%N /\
+  mp_err (mp_run default_cfg None 1 [0x91; 0x91]%N) = TooDeep.
+Proof. split; reflexivity. Qed.
